@@ -39,6 +39,7 @@ type SeqModel struct {
 	// crafted initial stores (CraftN > 0): drawn at random by TLC
 	CraftN, CraftTasks, CraftEpics int
 	CraftLegacy                    bool
+	CraftMerged                    bool // hand-merged logs: a pruned item's events in every order
 	CraftLegal                     bool // only (state, claimant) pairs the claim rule admits
 	SimSample                      int  // simulation only: successors drawn per step (0 = all)
 	// state x command engine: execute only these commands of the alphabet from each
@@ -71,6 +72,9 @@ func (m SeqModel) cfg(dev string, emit string, props, invs []string) string {
 		}
 		if m.CraftLegal {
 			mode = "legal"
+		}
+		if m.CraftMerged {
+			mode = "merged"
 		}
 	}
 	fmt.Fprintf(&b, "  SimSample = %d\n", m.SimSample)
